@@ -1114,10 +1114,9 @@ func genC13(w *bufio.Writer, seed int64, n int, tier string) {
 		if class == "poll" || r.Intn(12) == 0 {
 			big = 2 + r.Intn(149)
 			if class == "poll" {
-				nops = 60 + r.Intn(60)
-				if r.Intn(2) == 0 {
-					big = 90 + r.Intn(61)
-				}
+				// enough entries in front of / inside the transaction to cross the 100-entry fetch limit
+				nops = 8 + r.Intn(40)
+				big = 60 + r.Intn(91)
 			}
 		}
 		if kind == "engine" && class == "poll" {
